@@ -37,5 +37,12 @@ def proof_coverage(ctx, extra):
         'print_assumptions': a,
         'trusted_base': list(vlib.GLOBAL_TRUSTED),
     }
+    if ctx.tier == 'thorough' and ctx.proofs_ok:
+        ok, summ = vlib.coqchk(ctx.prop)
+        cov['coqchk'] = {'ok': ok, 'summary': summ}
+        if not ok:
+            cov['discharged'] = 0
+            vlib.violation(ctx, {'kind': 'proof-obligation', 'what': 'coqchk does not accept Props/%s.vo: %s' % (ctx.prop, summ[-1500:])},
+                           no_input=True)
     cov.update(extra)
     return cov
